@@ -2,10 +2,10 @@ SPECIFICATION Spec
 CONSTANTS
   CfgPool <- RestartCfgs
   AvPool = {TRUE, FALSE}
-  Kinds = {"Kb", "I"}
+  Kinds = {"Kb"}
   Classes = {"eq", "jump"}
   MaxFrames = 7
-  MaxEpoch = 3
+  MaxEpoch = 2
   TargetLal = FALSE
 INVARIANTS PlaylistWellFormed SeqMonotone TargetCovers ListedExist ListedWhole RecentStillPresent NoLossNoDup Finalised
 ACTION_CONSTRAINT EmitS
